@@ -3,6 +3,12 @@ Independent specification for C19, transcribed from ETSI TS 102 687 V1.2.1 (2018
 Annex A tables A.1/A.2 (reactive approach), clause 5.4 equations (1)-(6) and Table 3 (adaptive approach),
 Annex B equations B.1/B.2 (gate keeping).  Written from the standard, not from the code; see
 design_notes/C19.md for the provenance of every number.  Imports nothing from the model.
+
+Round 3: (i) Table A.1 carries the standard's bands (50 % to 65 % / > 65 %, the same as Table A.2), no longer the
+repository's 60 % (that deviation is known finding C19-KF2).  (ii) Clause 5.4 and Annex B are stated a second time as
+*relations* (`Clause54`, `B1`, `B2`): step by step, division-free, piecewise instead of min/max, so that the
+theorems "the code computes what the clause prescribes" are not `rfl` against a re-typed copy of the code.
+The function forms (`limeric`, `b1`, `b2`) are kept as reference evaluators and are proved to satisfy the relations.
 -/
 namespace FlexModel.Dcc.Spec
 
@@ -17,9 +23,10 @@ structure Annex where
   deriving DecidableEq, Repr
 
 /-- Table A.1 (T_on ≤ 1 ms): <30 % 10 Hz 100 ms | 30-39 % 5 Hz 200 ms | 40-49 % 2,5 Hz 400 ms |
-50-59 % 2 Hz 500 ms | ≥60 % 1 Hz 1000 ms.  The Active 3 / Restrictive edge (60 %) of this table follows the value the
-repository documents and tests; see design_notes/C19.md "Discrepancy not claimed". -/
-def tableA1 : Annex := ⟨[3000, 4000, 5000, 6000], [10000, 5000, 2500, 2000, 1000], [100, 200, 400, 500, 1000]⟩
+50-65 % 2 Hz 500 ms | >65 % 1 Hz 1000 ms.  The CBR column is the same in both tables of Annex A.  (The repository
+uses 60 % here and pins it by a unit test: known finding C19-KF2; the PDF could not be consulted, see
+design_notes/C19.md "Table A.1" - this single definition is the switch.) -/
+def tableA1 : Annex := ⟨[3000, 4000, 5000, 6500], [10000, 5000, 2500, 2000, 1000], [100, 200, 400, 500, 1000]⟩
 
 /-- Table A.2 (T_on ≤ 500 µs): <30 % 20 Hz 50 ms | 30-39 % 10 Hz 100 ms | 40-49 % 5 Hz 200 ms |
 50-65 % 4 Hz 250 ms | >65 % 1 Hz 1000 ms -/
@@ -107,6 +114,44 @@ def limeric (alpha beta target dmax dmin up down its delta c cPrev : Rat) : Rat 
 /-- Table 3: α, β, CBR_target, δ_max, δ_min, δ_UP_MAX, δ_DOWN_MAX -/
 def table3 : List Rat := [16/1000, 12/10000, 68/100, 3/100, 6/10000, 5/10000, -25/100000]
 
+/-! ### Clause 5.4 once more, as the five steps read as conditions on the new values (no evaluation order, no
+min/max, no division): what "computes δ exactly as clause 5.4 prescribes" means -/
+
+/-- the parameters of Table 3 under the standard's names -/
+structure P54 where
+  alpha : Rat
+  beta : Rat
+  target : Rat
+  dmax : Rat
+  dmin : Rat
+  up : Rat
+  down : Rat
+
+/-- step 1, eq. (1), cleared of fractions: 4·CBR_ITS-S' = 2·CBR_ITS-S + CBR_L_0_Hop + CBR_L_0_Hop_Previous -/
+def Step1 (its c cPrev its' : Rat) : Prop := 4 * its' = 2 * its + (c + cPrev)
+
+/-- step 2: if CBR_target − CBR_ITS-S is positive, δ_offset is the smaller of β·(…) and δ_UP_MAX (eq. 2), otherwise
+the larger of β·(…) and δ_DOWN_MAX (eq. 3); "the smaller of a, b" = below both and equal to one of them -/
+def Step2 (P : P54) (its' off : Rat) : Prop :=
+  (0 < P.target - its' →
+    off ≤ P.beta * (P.target - its') ∧ off ≤ P.up ∧ (off = P.beta * (P.target - its') ∨ off = P.up)) ∧
+  (P.target - its' ≤ 0 →
+    P.beta * (P.target - its') ≤ off ∧ P.down ≤ off ∧ (off = P.beta * (P.target - its') ∨ off = P.down))
+
+/-- step 3, eq. (4) δ = (1 − α)·δ + δ_offset, written as δ' + α·δ = δ + δ_offset -/
+def Step3 (P : P54) (delta off d : Rat) : Prop := d + P.alpha * delta = delta + off
+
+/-- step 4, eq. (5): if δ > δ_max then δ = δ_max (else unchanged) -/
+def Step4 (P : P54) (d d' : Rat) : Prop := (P.dmax < d → d' = P.dmax) ∧ (d ≤ P.dmax → d' = d)
+
+/-- step 5, eq. (6): if δ < δ_min then δ = δ_min (else unchanged) -/
+def Step5 (P : P54) (d d' : Rat) : Prop := (d < P.dmin → d' = P.dmin) ∧ (P.dmin ≤ d → d' = d)
+
+/-- one evaluation of clause 5.4: the new (CBR_ITS-S, δ) are related to the old pair and the two CBR values of step 1
+through the five steps in order -/
+def Clause54 (P : P54) (its delta c cPrev its' delta' : Rat) : Prop :=
+  ∃ off d3 d4, Step1 its c cPrev its' ∧ Step2 P its' off ∧ Step3 P delta off d3 ∧ Step4 P d3 d4 ∧ Step5 P d4 delta'
+
 /-! ## Annex B (gate keeping) -/
 
 /-- the bounds 25 ms and 1 s of B.1/B.2 -/
@@ -118,6 +163,25 @@ def b1 (mn mx tpg ton delta : Rat) : Rat := tpg + min (max (ton / delta) mn) mx
 
 /-- (B.2) t_go = t_pg + min(max(δ_old/δ_new · (t_go − t_pg), 0,025), 1), bounds as parameters -/
 def b2 (mn mx tpg tgo dOld dNew : Rat) : Rat := tpg + min (max (dOld / dNew * (tgo - tpg)) mn) mx
+
+/-! ### B.1/B.2 once more as relations: the waiting time is the quotient limited to [25 ms, 1 s], stated piecewise
+and with the quotient defined by a product (no division, no min/max) -/
+
+/-- `iv` is `x` limited to [mn, mx] -/
+def Limited (mn mx x iv : Rat) : Prop :=
+  (x ≤ mn → iv = mn) ∧ (mn ≤ x → x ≤ mx → iv = x) ∧ (mx ≤ x → iv = mx)
+
+/-- (B.1): t_go = t_pg + (T_on_pp / δ limited to [mn, mx]) -/
+def B1 (mn mx tpg ton delta tgo : Rat) : Prop :=
+  ∃ x iv, x * delta = ton ∧ Limited mn mx x iv ∧ tgo = tpg + iv
+
+/-- (B.2): t_go' = t_pg + (δ_old/δ_new · (t_go − t_pg) limited to [mn, mx]) -/
+def B2 (mn mx tpg tgoOld dOld dNew tgo : Rat) : Prop :=
+  ∃ x iv, x * dNew = dOld * (tgoOld - tpg) ∧ Limited mn mx x iv ∧ tgo = tpg + iv
+
+/-- "the gate opens exactly at t_go": open at `t` iff nothing is scheduled or `t_go ≤ t` -/
+def OpensAt (tgo : Option Rat) (t : Rat) (isOpen : Bool) : Prop :=
+  isOpen = true ↔ (tgo = none ∨ ∃ b, tgo = some b ∧ b ≤ t)
 
 /-- consecutive admission times are at least `gap` apart -/
 def spaced (gap : Rat) : Option Rat → List Rat → Bool
